@@ -70,7 +70,9 @@ CHECKS = {
              'sets, all histories up to depth 2 (3 thorough) after the filling run execute on the real sampler and pool; '
              'each run must equal the pool-free run of the current model bit for bit, stored nodes must not be invoked for '
              'held batches, the pool must hold exactly the consumed batches with freshly computed values, and contexts '
-             'with another batch_size/seed must be refused leaving the pool unchanged.',
+             'with another batch_size/seed must be refused leaving the pool unchanged. Bayesian optimisation (acquired '
+             'parameters are supplied to the batch) is run over in-memory pools as fill / rerun / longer rerun: surrogate evidence '
+             'equal to the pool-free run, stored nodes not re-run, stores hold the consumed batches.',
         note='Trusted: purity of seeded generation (C02) for the pool-free reference; documented workflow (stores of a '
              'replaced node and its descendants are dropped). One open known finding (parameters loaded from the pool '
              'while the simulator is recomputed).',
